@@ -91,9 +91,10 @@ def hydrogens(mol, seam, supplied=()):
         by_parent.setdefault(akey(p), []).append((a.x, a.y, a.z))
         if id(p) in seam.rotamer_parents:
             # a frame-dependent rotamer is legitimate only where nothing defines the direction: not for a planar (steric number 3)
-            # atom whose single neighbour carries another heavy atom - that neighbour's substituents define the plane
+            # atom whose single neighbour is itself planar and carries another heavy atom - that neighbour's substituents define
+            # the plane (a planar atom on a tetrahedral neighbour, e.g. the carbonyl carbon of a residue that lacks its O, is a rotamer)
             nbs = [b for b in p.bonded_atoms if b.element != 'H']
-            definable = (getattr(p, 'steric_number', None) == 3 and len(nbs) == 1
+            definable = (getattr(p, 'steric_number', None) == 3 and len(nbs) == 1 and getattr(nbs[0], 'steric_number', None) == 3
                          and any(x is not p and x.element != 'H' for x in nbs[0].bonded_atoms))
             if not definable:
                 rot.add(akey(p))
